@@ -439,6 +439,7 @@ def c02(run):
     r_range.run(run, P)
     r_range.run_cbor(run, P)
     r_range.run_cbor_reader(run, P)
+    r_range.run_token_ext(run, P)
     r_shift.run(run, P, units=('oscore.c', 'oscore_cbor.c'))
     r_stream.run_cap(run, P)
     r_stream.run_cap_own(run, P)
